@@ -44,6 +44,9 @@ type Check struct {
 	HangLimit, SingleLimit time.Duration
 	// MemLimitKB, when > 0, caps each worker's address space (ulimit -v).
 	MemLimitKB int
+	// MaxBadCases is the number of confirmed crashing/hanging cases after which a shard is abandoned
+	// (default 40); what the shard had not explored is reported as a cap.
+	MaxBadCases int
 	// Prepare runs once in the parent before workers are started (e.g. to build an instrumented
 	// binary); it may return extra arguments passed to every worker via Ctx.Args, and an
 	// alternative executable for the workers.
@@ -240,7 +243,16 @@ type workerOutcome struct {
 func runShard(ch *Check, exe, tier string, i, n int, tmp string, deadline time.Time, argsJSON string, seed int64) workerOutcome {
 	o := workerOutcome{}
 	var skip []string
-	for attempt := 0; attempt < 40; attempt++ {
+	maxBad := ch.MaxBadCases
+	if maxBad == 0 {
+		maxBad = 40
+	}
+	for attempt := 0; attempt < 60; attempt++ {
+		if len(o.bad) >= maxBad {
+			o.res = newResult()
+			o.res.Caps = append(o.res.Caps, fmt.Sprintf("a shard was abandoned after %d cases that crashed or hung the worker (each is reported); the rest of that shard was not explored", len(o.bad)))
+			return o
+		}
 		outFile := filepath.Join(tmp, fmt.Sprintf("res-%d.json", i))
 		progFile := filepath.Join(tmp, fmt.Sprintf("prog-%d", i))
 		skipFile := filepath.Join(tmp, fmt.Sprintf("skip-%d.json", i))
@@ -388,6 +400,11 @@ func runParent(ch *Check, tier string, seed int64, nworkers int) int {
 			}
 			if ch.Classify != nil && b.desc != "" {
 				key, what = ch.Classify(b.desc, b.output, b.hang)
+			}
+			if key == "" {
+				// not this property's subject: the case is skipped and reported as a cap
+				merged.Caps = append(merged.Caps, what)
+				continue
 			}
 			if v := merged.Violations[key]; v != nil {
 				v.Count++
@@ -584,14 +601,14 @@ func topOutcomes(m map[string]int64, n int) map[string]int64 {
 
 func readProgress(path string) string {
 	b, err := os.ReadFile(path)
-	if err != nil || len(b) < 4 {
+	if err != nil || len(b) < 6 {
 		return ""
 	}
-	n, err := strconv.Atoi(string(b[:4]))
-	if err != nil || 4+n > len(b) {
+	n, err := strconv.Atoi(string(b[:6]))
+	if err != nil || 6+n > len(b) {
 		return ""
 	}
-	return string(b[4 : 4+n])
+	return string(b[6 : 6+n])
 }
 
 func tail(s string, n int) string {
